@@ -196,15 +196,43 @@ def check_args(case):
 
 # ------------------------------------------ (B) independence from history
 
+@st.composite
+def route_probe(draw, tiny=False, radius=()):
+    """Broadcast nets on a fault-free machine: trees with dozens of nodes, so
+    that the router's memoised search rings are used.  `tiny` asks for a
+    machine of at most 3x3 chips, `radius` fixes the search radius."""
+    if tiny:
+        w, h = draw(st.integers(1, 3)), draw(st.integers(1, 3))
+        n = draw(st.integers(2, 4))
+    else:
+        w, h = draw(st.integers(6, 32)), draw(st.integers(6, 32))
+        n = draw(st.integers(8, 80))
+    m = {"w": w, "h": h, "mesh": draw(st.booleans()),
+         "resources": {"Cores": 18}, "exceptions": [],
+         "dead_chips": [], "dead_links": []}
+    chips = draw(st.lists(st.tuples(st.integers(0, w - 1),
+                                    st.integers(0, h - 1)),
+                          min_size=n, max_size=n))
+    names = ["v%d" % i for i in range(n)]
+    if radius == ():
+        radius = draw(st.sampled_from([0, 1, 2, 3, 5, 20, None]))
+    return {"kind": "route", "case": {
+        "machine": m,
+        "chip_of": dict((v, list(c)) for v, c in zip(names, chips)),
+        "alloc": {}, "endpoints": {},
+        "nets": [{"source": names[0], "sinks": names[1:], "weight": 1}],
+        "radius": radius,
+        "seed": draw(st.integers(0, 1000)), "vkind": "str"}}
+
+
 def probe_strategy(tier):
     from vf.props import c01, c02, c04, c08
 
     @st.composite
     def one(draw):
-        kind = draw(st.sampled_from(["place", "place", "pipeline", "route",
+        kind = draw(st.sampled_from(["place", "pipeline", "route", "route",
                                      "route", "minimise", "bitfield",
-                                     "controller", "place-many",
-                                     "place-many"]))
+                                     "controller", "place-many"]))
         if kind == "place-many":
             # 16-40 vertices with identity hashes, a seeded placer and no
             # constraints: the result exposes any dependence on set / address
@@ -226,26 +254,7 @@ def probe_strategy(tier):
                 "options": {"effort": draw(st.sampled_from([0.0, 0.05]))}
                 if placer != "rand" else {}}}
         if kind == "route":
-            # broadcast nets on a fault-free machine: trees with dozens of
-            # nodes, so that the router's memoised search rings are used
-            w = draw(st.integers(6, 12))
-            h = draw(st.integers(6, 12))
-            m = {"w": w, "h": h, "mesh": draw(st.booleans()),
-                 "resources": {"Cores": 18}, "exceptions": [],
-                 "dead_chips": [], "dead_links": []}
-            n = draw(st.integers(8, 24))
-            chips = draw(st.lists(st.tuples(st.integers(0, w - 1),
-                                            st.integers(0, h - 1)),
-                                  min_size=n, max_size=n))
-            names = ["v%d" % i for i in range(n)]
-            return {"kind": kind, "case": {
-                "machine": m,
-                "chip_of": dict((v, list(c)) for v, c in zip(names, chips)),
-                "alloc": {}, "endpoints": {},
-                "nets": [{"source": names[0], "sinks": names[1:],
-                          "weight": 1}],
-                "radius": draw(st.sampled_from([0, 1, 2, 3, 5, 20, None])),
-                "seed": draw(st.integers(0, 1000)), "vkind": "str"}}
+            return draw(route_probe())
         if kind == "place":
             placer = draw(st.sampled_from(["sa-c", "sa-python", "hilbert",
                                            "rcm", "breadth-first",
@@ -282,7 +291,11 @@ def strat_history(draw, tier):
     history = draw(st.lists(probe_strategy(tier), min_size=1,
                             max_size=8 if tier == "thorough" else 4))
     probe = draw(probe_strategy(tier))
-    if draw(st.booleans()):
+    if probe["kind"] == "route" and draw(st.booleans()):
+        # the same routing options met earlier on a much smaller machine
+        history.append(draw(route_probe(tiny=True,
+                                        radius=probe["case"]["radius"])))
+    elif draw(st.booleans()):
         # make sure the history holds a call of the probe's function
         other = draw(probe_strategy(tier).filter(
             lambda p: p["kind"] == probe["kind"]))
@@ -291,14 +304,10 @@ def strat_history(draw, tier):
 
 
 _fresh_cache = {}
+_server = {}
 
 
-def fresh_result(spec):
-    """Result of the probe made first in a fresh interpreter."""
-    text = json.dumps(spec, sort_keys=True, default=repr)
-    key = hashlib.sha1(text.encode()).hexdigest()
-    if key in _fresh_cache:
-        return _fresh_cache[key]
+def _probe_env():
     env = dict(os.environ)
     here = os.path.dirname(os.path.dirname(os.path.dirname(
         os.path.abspath(__file__))))
@@ -307,6 +316,12 @@ def fresh_result(spec):
          os.path.join(here, ".deps")])
     env["PYTHONHASHSEED"] = "0"
     env["PYTHONWARNINGS"] = "ignore"
+    return env, here
+
+
+def _spawn_result(text):
+    """The probe as the very first call of a newly started interpreter."""
+    env, here = _probe_env()
     p = subprocess.run([sys.executable, "-m", "vf.probe"], input=text,
                        capture_output=True, text=True, env=env, cwd=here,
                        timeout=600)
@@ -315,7 +330,49 @@ def fresh_result(spec):
     if p.returncode != 0 or not line:
         raise HarnessError("fresh-interpreter probe failed: %s"
                            % (p.stderr[-1500:],))
-    out = json.loads(line[-1][len("PROBE-RESULT:"):])
+    return json.loads(line[-1][len("PROBE-RESULT:"):])
+
+
+def _server_result(text):
+    """The probe in a child forked from a process that has imported the
+    library and called nothing (vf.probe --serve): same state as a new
+    interpreter, at a fraction of the cost."""
+    pid = os.getpid()
+    srv = _server.get(pid)
+    if srv is None or srv.poll() is not None:
+        env, here = _probe_env()
+        srv = subprocess.Popen([sys.executable, "-m", "vf.probe", "--serve"],
+                               stdin=subprocess.PIPE, stdout=subprocess.PIPE,
+                               stderr=subprocess.DEVNULL, text=True, env=env,
+                               cwd=here)
+        ready = srv.stdout.readline()
+        if not ready.startswith("PROBE-SERVER-READY"):
+            raise HarnessError("probe server did not start: %r" % ready)
+        _server.clear()
+        _server[pid] = srv
+    srv.stdin.write(text + "\n")
+    srv.stdin.flush()
+    while True:
+        line = srv.stdout.readline()
+        if not line:
+            raise HarnessError("probe server died")
+        if line.startswith("PROBE-RESULT:"):
+            return json.loads(line[len("PROBE-RESULT:"):])
+        if line.startswith("PROBE-ERROR:"):
+            raise HarnessError("fresh-state probe failed: %s"
+                               % json.loads(line[len("PROBE-ERROR:"):]))
+
+
+def fresh_result(spec):
+    """Result of the probe made first in a fresh interpreter."""
+    text = json.dumps(spec, sort_keys=True, default=repr)
+    key = hashlib.sha1(text.encode()).hexdigest()
+    if key in _fresh_cache:
+        return _fresh_cache[key]
+    if os.environ.get("VERIF_C17_FRESH", "fork") == "spawn":
+        out = _spawn_result(text)
+    else:
+        out = _server_result(text)
     if len(_fresh_cache) > 500:
         _fresh_cache.clear()
     _fresh_cache[key] = out
@@ -448,6 +505,6 @@ CLAUSES = [
                 "result must equal the one obtained in a fresh interpreter; "
                 "non-trivial = the history contains a call of the probe's "
                 "kind with other arguments",
-           examples={"quick": 12, "thorough": 150},
+           examples={"quick": 250, "thorough": 4000},
            shards={"quick": 8, "thorough": 16}),
 ]
